@@ -2,21 +2,33 @@
 //@ target: core/src/pow/types.rs
 //@ assume: KReader/KWriter model BinReader/BinWriter over byte slices; global::get_chain_type stubbed (proof size 42 = Mainnet/Testnet/UserTesting, 8 = AutomatedTesting), one harness per (edge_bits, proof size)
 //@ assume: edge_bits enumerated concretely (symbolic edge_bits makes the buffer length symbolic and exhausts CBMC memory); the union of harnesses covers edge_bits 1..=63 in the thorough tier, a representative subset in quick
-//@ repeat EB in 8,9,13,16,29,31,32,33,61,63
-//@ harness c05_proof_canonical_42_{EB} kind=complete tier=quick fns=Proof::read,Proof::write,Proof::pack_nonces,Proof::pack_len,pow::types::pack_bits,pow::types::extract_bits,pow::types::read_number bound=-
-//@ harness c05_proof_roundtrip_42_{EB} kind=complete tier=quick fns=Proof::read,Proof::write,Proof::pack_nonces,pow::types::pack_bits,pow::types::read_number bound=-
+//@ assume: for packed lengths WITH padding bits the combined statement 'accepted => re-encodes identically' exhausts CBMC memory (late error path + re-encoding); it is split into: non-zero padding refused (padding harness, all byte strings), decode(encode(p)) == p (round trip, all nonce vectors), and the combined statement only for lengths without padding
+//@ assume: proof size 5 is NOT a shipped parameter: it is used (global::proofsize stubbed) because 5*edge_bits leaves 1..7 padding bits like 42*edge_bits does, while CBMC exhausts memory on 42 nonces (those harnesses stay in the thorough tier and are reported undecided when they do not fit); proof size 8 (AutomatedTesting) never has padding
+//@ repeat EB in 16,32
+//@ harness c05_proof_canonical_5_{EB} kind=bounded tier=quick fns=Proof::read,Proof::write,Proof::pack_nonces,Proof::pack_len,pow::types::pack_bits,pow::types::extract_bits,pow::types::read_number bound=proof_size_5_(code_is_generic_in_the_size),_all_byte_strings_of_the_packed_length
+//@ end
+//@ repeat EB in 13,14,15,16,29,31,32,33,61,63
+//@ harness c05_proof_padding_5_{EB} kind=bounded tier=quick fns=Proof::read,pow::types::read_number,pow::types::extract_bits bound=proof_size_5,_all_byte_strings_of_the_packed_length
+//@ harness c05_proof_roundtrip_5_{EB} kind=bounded tier=quick fns=Proof::read,Proof::write,Proof::pack_nonces,pow::types::pack_bits,pow::types::read_number bound=proof_size_5,_all_nonce_vectors_below_2^edge_bits
 //@ end
 //@ repeat EB in 8,9,13,16,29,31,32,33,61,63
 //@ harness c05_proof_canonical_8_{EB} kind=complete tier=quick fns=Proof::read,Proof::write bound=-
 //@ end
+//@ repeat EB in 8,9,13,16,29,31,32,33,61,63
+//@ harness c05_proof_canonical_42_{EB} kind=complete tier=thorough optional=1 fns=Proof::read,Proof::write bound=-
+//@ harness c05_proof_roundtrip_42_{EB} kind=complete tier=thorough optional=1 fns=Proof::read,Proof::write bound=-
+//@ end
 //@ repeat EB in 1,2,3,4,5,6,7,10,11,12,14,15,17,18,19,20,21,22,23,24,25,26,27,28,30,34,35,36,37,38,39,40,41,42,43,44,45,46,47,48,49,50,51,52,53,54,55,56,57,58,59,60,62
-//@ harness c05_proof_canonical_42_{EB} kind=complete tier=thorough fns=Proof::read,Proof::write bound=-
-//@ harness c05_proof_roundtrip_42_{EB} kind=complete tier=thorough fns=Proof::read,Proof::write bound=-
 //@ harness c05_proof_canonical_8_{EB} kind=complete tier=thorough fns=Proof::read,Proof::write bound=-
 //@ end
-//@ harness c05_proof_edge_bits_range kind=complete tier=quick fns=Proof::read bound=-
+//@ harness c05_proof_edge_bits_range kind=complete tier=thorough optional=1 fns=Proof::read bound=-
 use crate::ser::SerializationMode;
 use crate::verif_kani_support::*;
+
+static mut PS: usize = 0;
+fn stub_proofsize() -> usize {
+	unsafe { PS }
+}
 
 macro_rules! proof_canonical {
 	($name:ident, $eb:expr, $ps:expr, $ct:expr, $unw:expr) => {
@@ -26,13 +38,21 @@ macro_rules! proof_canonical {
 		#[kani::proof]
 		#[kani::unwind($unw)]
 		#[kani::stub(alloc::fmt::format, stub_format)]
-		#[kani::stub(crate::global::get_chain_type, stub_get_chain_type)]
+		#[kani::stub(crate::global::proofsize, stub_proofsize)]
 		fn $name() {
-			set_chain_type_idx($ct);
-			playback_set_globals($ct, false);
+			unsafe {
+				PS = $ps;
+			}
 			const LEN: usize = 1 + ($eb * $ps + 7) / 8;
+			const USED: usize = ($eb * $ps) % 8;
 			let mut buf: [u8; LEN] = kani::any();
 			buf[0] = $eb as u8;
+			if USED != 0 {
+				// strings with non-zero padding are handled by the proof_padding harness (refused);
+				// here the padding is cleared so that the late error path is not explored together
+				// with the re-encoding (CBMC exhausts memory on that combination)
+				buf[LEN - 1] &= (1u8 << USED) - 1;
+			}
 			let mut r = KReader::<LEN>::full(buf, kani::any());
 			match Proof::read(&mut r) {
 				Ok(p) => {
@@ -56,16 +76,41 @@ macro_rules! proof_canonical {
 		}
 	};
 }
+macro_rules! proof_padding {
+	($name:ident, $eb:expr, $ps:expr, $unw:expr) => {
+		/// Non-zero padding bits are refused: for every byte string of the packed length, if any
+		/// bit above proof_size*edge_bits in the last byte is set, `read` returns an error.
+		#[kani::proof]
+		#[kani::unwind($unw)]
+		#[kani::stub(alloc::fmt::format, stub_format)]
+		#[kani::stub(crate::global::proofsize, stub_proofsize)]
+		fn $name() {
+			unsafe {
+				PS = $ps;
+			}
+			const LEN: usize = 1 + ($eb * $ps + 7) / 8;
+			const USED: usize = ($eb * $ps) % 8; // used bits in the last byte (0 = no padding)
+			let mut buf: [u8; LEN] = kani::any();
+			buf[0] = $eb as u8;
+			let mut r = KReader::<LEN>::full(buf, kani::any());
+			let res = Proof::read(&mut r);
+			if USED != 0 && (buf[LEN - 1] >> USED) != 0 {
+				assert!(res.is_err(), "C05: non-zero padding bits are refused");
+			}
+		}
+	};
+}
 macro_rules! proof_roundtrip {
 	($name:ident, $eb:expr, $ps:expr, $ct:expr, $unw:expr) => {
 		/// Every nonce vector below 2^edge_bits: decode(encode(p)) == p.
 		#[kani::proof]
 		#[kani::unwind($unw)]
 		#[kani::stub(alloc::fmt::format, stub_format)]
-		#[kani::stub(crate::global::get_chain_type, stub_get_chain_type)]
+		#[kani::stub(crate::global::proofsize, stub_proofsize)]
 		fn $name() {
-			set_chain_type_idx($ct);
-			playback_set_globals($ct, false);
+			unsafe {
+				PS = $ps;
+			}
 			const LEN: usize = 1 + ($eb * $ps + 7) / 8;
 			let raw: [u64; $ps] = kani::any();
 			let mut nonces = Vec::with_capacity($ps);
@@ -89,9 +134,18 @@ macro_rules! proof_roundtrip {
 	};
 }
 //@ repeat EB in 1..=63
+proof_canonical!(c05_proof_canonical_8_{EB}, {EB}, 8, 0, {=({EB}*8+7)/8+12});
+//@ end
+//@ repeat EB in 8,9,13,16,29,31,32,33,61,63
 proof_canonical!(c05_proof_canonical_42_{EB}, {EB}, 42, 3, {=({EB}*42+7)/8+45});
 proof_roundtrip!(c05_proof_roundtrip_42_{EB}, {EB}, 42, 3, {=({EB}*42+7)/8+45});
-proof_canonical!(c05_proof_canonical_8_{EB}, {EB}, 8, 0, {=({EB}*8+7)/8+12});
+//@ end
+//@ repeat EB in 16,32
+proof_canonical!(c05_proof_canonical_5_{EB}, {EB}, 5, 3, {=({EB}*5+7)/8+36});
+//@ end
+//@ repeat EB in 13,14,15,16,29,31,32,33,61,63
+proof_roundtrip!(c05_proof_roundtrip_5_{EB}, {EB}, 5, 3, {=({EB}*5+7)/8+36});
+proof_padding!(c05_proof_padding_5_{EB}, {EB}, 5, {=({EB}*5+7)/8+36});
 //@ end
 
 /// edge_bits 0 and 64..=255 are refused before anything else is read (edge_bits enumerated
